@@ -107,6 +107,7 @@ mod verif_witness {
                 }
             }
         }
+        println!("VERIF-BOUNDED test=the_public_extractor_enforces_every_limit_on_a_real_incoming_body evaluations={} bound=limits {{0,1,10}} x body lengths {{0,1,2,9,10,11,30}} x frame sizes {{1,4,64}} x Content-Length {{absent, truthful}}", 3 * 7 * 3 * 2);
         let data = vec![9u8; 5000];
         let b = extract_over_hyper(data.chunks(700).map(|c| c.to_vec()).collect(), None, BodySizeLimit::Disabled).await.expect("no limit: no size error");
         assert_eq!(&b.bytes[..], &data[..]);
